@@ -444,3 +444,37 @@ def build_ptr_unit(ctx):
     u.fn(r"T\* release\(\) noexcept\s*", "ReferencePtr::release", "Obj* ReferencePtr_release(%s* self)" % S)
     parts.append(u.text().replace("ReferencePtr_reset(self)", "ReferencePtr_reset_ptr(self, 0 /* default argument tp=nullptr */)").replace("ReferencePtr_reset(self, ", "ReferencePtr_reset_ptr(self, "))
     return "\n".join(parts)
+
+
+# ------------------------------------------------------------------------------------------------
+# ReinitOnCopyHelper<T,true> / ResetOnCopyHelper<T,true>  (scalar specialisations, T := int)
+# ------------------------------------------------------------------------------------------------
+def build_reinit_unit(ctx):
+    parts = ["struct ReinitOnCopyHelper { int m_value; int m_reinitValue; };  /* T m_value{}; const T m_reinitValue{}; (T := int; const dropped so that the constructors can be written as statements) */",
+             "struct ResetOnCopyHelper { int m_value; };"]
+    for cls, path, data in (("ReinitOnCopyHelper", os.path.join(INTERNAL, "ReinitOnCopy.h"), ["m_value", "m_reinitValue"]),
+                            ("ResetOnCopyHelper", os.path.join(INTERNAL, "ResetOnCopy.h"), ["m_value"])):
+        u = PtrUnit(ctx, path, cls, data)
+        u.self0, u.selfn = [], []
+        S = "struct " + cls
+        def rules(r, cls=cls):
+            r.sub("rvalue reference -> pointer: std::move(source.member)", r"std::move\(source\.(\w+)\)", r"source->\1", None, 0)
+            r.sub("reference -> pointer: source.member", r"\bsource\.(m_value|m_reinitValue)\b", r"source->\1", None, 0)
+            r.sub("const T& value -> pointer", r"(?<![\w.>])value\b(?!\s*\()", "(*value)", None, 0)
+            r.sub("value initialisation T{} -> 0 (T := int)", r"\bT\{\}", "0", None, 0)
+            r.sub("delegating constructor %s(e) -> call of the constructor from T" % cls, r"(?<![\w.>_])%s\((?!\))([^;]*)\);" % cls, r"{ int tmp_ = \1; %s_init_value(self, &tmp_); }" % cls, None, 0)
+        # first definitions in each header belong to the <T,true> specialisation (the <T,false> one follows it)
+        u.fn(r"explicit %s\(const T& value\)\s*" % cls, cls + "<T,true>::" + cls + "(const T&)", "void %s_init_value(%s* self, const int* value)" % (cls, S), rules)
+        if cls == "ReinitOnCopyHelper":
+            u.fn(r"%s\(const %s& source\)\s*" % (cls, cls), cls + "<T,true>::" + cls + "(const " + cls + "&)", "void %s_init_copy(%s* self, const %s* source)" % (cls, S, S), rules)
+        u.fn(r"%s\(%s&& source\)\s*" % (cls, cls), cls + "<T,true>::" + cls + "(" + cls + "&&)", "void %s_init_move(%s* self, %s* source)" % (cls, S, S), rules)
+        u.fn(r"%s& operator=\(%s&& source\)\s*" % (cls, cls), cls + "<T,true>::operator=(" + cls + "&&)", "%s* %s_assign_move(%s* self, %s* source)" % (S, cls, S, S), rules)
+        u.fn(r"%s& operator=\(const %s&(?: \w+)?\)\s*" % (cls, cls), cls + "<T,true>::operator=(const " + cls + "&)", "%s* %s_assign_copy(%s* self, const %s* source)" % (S, cls, S, S), rules)
+        u.fn(r"%s& operator=\(const T& value\)\s*" % cls, cls + "<T,true>::operator=(const T&)", "%s* %s_assign_value(%s* self, const int* value)" % (S, cls, S), rules)
+        u.fn(r"const T& getT\(\) const\s*", cls + "<T,true>::getT", "const int* %s_getT(const %s* self)" % (cls, S),
+             lambda r: r.sub("reference -> pointer: return member", r"return m_value;", "return &m_value;", 1), occurrence=2)      # occurrence 1 is the forwarding one-liner of the outer class
+        if cls == "ReinitOnCopyHelper":
+            u.fn(r"const T& getReinitT\(\) const\s*", cls + "<T,true>::getReinitT", "const int* %s_getReinitT(const %s* self)" % (cls, S),
+                 lambda r: r.sub("reference -> pointer: return member", r"return m_reinitValue;", "return &m_reinitValue;", 1), occurrence=2)
+        parts.append(u.text())
+    return "\n".join(parts)
